@@ -12,3 +12,6 @@ pub use nonmagic::WHITE_PAWN_NONMAGICS;
 pub use nonmagic::BLACK_PAWN_NONMAGICS;
 pub use nonmagic::Nonmagics;
 pub use nonmagic::UnsafeNonmagicsExt;
+
+#[cfg(inkayaku_verif)]
+pub use magic::MagicConfiguration;
